@@ -31,6 +31,9 @@ pub enum RTamper {
 #[derive(Serialize, Deserialize, Hash, Debug, Clone)]
 pub struct Xc {
     pub ke: Hex,
+    /// 0: ke as given; 1: ke := H1(ID_B||02) (Q_B = [h1]P1 + Ppub-e becomes a doubling); 2: ke := H1(ID_A||02); 3: ke := 2*H1(ID_B||02); 4: ke := H1(ID_A||02) - 1; 5: ke := N - H1(ID_B||02) + 1
+    #[serde(default)]
+    pub ke_rel: u8,
     pub ida_len: usize,
     pub idb_len: usize,
     pub id_seed: u64,
@@ -84,10 +87,23 @@ fn tamper(honest: &Pt<Fp>, lib_honest: &Point, t: &Option<RTamper>) -> (Option<P
 fn check(c: &Xc) -> CaseResult {
     let pr = r9::params();
     let n = &pr.n;
-    let ke = from_be(&c.ke) % (n - 1u32) + 1u32;
-    let m = master(&ke);
     let ida = expand_bytes(c.id_seed, c.ida_len);
     let idb = if c.same_id { ida.clone() } else { expand_bytes(c.id_seed ^ 0xb0b, c.idb_len) };
+    let (h_a, h_b) = (r9::h1(&ida, 0x02), r9::h1(&idb, 0x02));
+    let mut ke = match c.ke_rel {
+        1 => h_b.clone(),
+        2 => h_a.clone(),
+        3 => (&h_b * 2u32) % n,
+        4 => (&h_a + n - 1u32) % n,
+        5 => (n - &h_b + 1u32) % n,
+        // 6: the negative of the key "as given"
+        6 => n - (from_be(&c.ke) % (n - 1u32) + 1u32),
+        _ => from_be(&c.ke) % (n - 1u32) + 1u32,
+    };
+    if ke == BigUint::from(0u32) {
+        ke = BigUint::one();
+    }
+    let m = master(&ke);
     let (ra, rb) = (from_be(&c.ra) % (n - 2u32) + 1u32, from_be(&c.rb) % (n - 2u32) + 1u32);
     let (Some(dea_ref), Some(deb_ref)) = (r9::exch_key(&ke, &ida), r9::exch_key(&ke, &idb)) else { return pass(false, "extraction-undefined") };
     let key_a = catch(|| m.lib.extract_exch_key(&ida)).map_err(|p| Fail { key: "entry=Sm9EncMasterKey::extract_exch_key outcome=panic".into(), detail: p })?.ok_or_else(|| Fail { key: "entry=Sm9EncMasterKey::extract_exch_key input=valid outcome=none".into(), detail: "".into() })?;
@@ -163,14 +179,14 @@ fn xc(tampered: bool) -> impl Strategy<Value = Xc> {
         (rt(), rt()),
     )
         .prop_map(move |(ke, (ida_len, idb_len, id_seed, same_id), klen, (ra, rb), (t_ra, t_rb))| Xc {
-            ke, ida_len, idb_len, id_seed, same_id, klen: if tampered { klen.max(16) } else { klen }, ra, rb,
+            ke, ke_rel: 0, ida_len, idb_len, id_seed, same_id, klen: if tampered { klen.max(16) } else { klen }, ra, rb,
             t_ra: if tampered { t_ra } else { None }, t_rb: if tampered { t_rb } else { None },
         })
 }
 
 pub fn run(ctx: &Ctx) {
     ctx.set_rule(
-        "a case is a history (ke, ID_A, ID_B incl. equal and empty, klen 1..=128, rA, rB injected through the RNG hook, optional alteration of R_A / R_B in transit: another valid point (random, or a boundary point of G1), -R, an off-curve point, a bit flip of x||y, \
+        "a case is a history (ke incl. master keys equal or related to H1(ID||02) of either party, ID_A, ID_B incl. equal and empty, klen 1..=128, rA, rB injected through the RNG hook, optional alteration of R_A / R_B in transit: another valid point (random, or a boundary point of G1), -R, an off-curve point, a bit flip of x||y, \
          or the same point in another Jacobian representation, which is not an alteration). Oracle: GM/T 0044.3 on the reference (three pairings per side): R_A, R_B, SK_B and SK_A compared exactly with what each side must derive from what it saw; \
          honest histories: SK_A == SK_B of length klen; an R that is not on the curve must be rejected; an altered valid R must make the keys differ (asserted for klen >= 16 only). Non-trivial: every history (each contains exact comparisons).",
     );
@@ -195,13 +211,35 @@ pub fn run(ctx: &Ctx) {
 
     ctx.generated("honest_histories", "proptest honest exchanges: exact R_A, R_B, SK_B, SK_A, equality, length", ctx.tier.pick(220, 5_000), || xc(false), check);
     ctx.exhaustive("klen_1_128", "every klen 1..=128 on one key pair / identity pair", || {
-        (1..=128usize).map(|klen| Xc { ke: gen::hex32(&BigUint::from(0x0bad_c0de_1234_5677u64)), ida_len: 5, idb_len: 3, id_seed: 17, same_id: false, klen, ra: Hex(expand_bytes(klen as u64, 32)), rb: Hex(expand_bytes(klen as u64 ^ 0xbb, 32)), t_ra: None, t_rb: None }).collect()
+        (1..=128usize).map(|klen| Xc { ke: gen::hex32(&BigUint::from(0x0bad_c0de_1234_5677u64)), ke_rel: 0, ida_len: 5, idb_len: 3, id_seed: 17, same_id: false, klen, ra: Hex(expand_bytes(klen as u64, 32)), rb: Hex(expand_bytes(klen as u64 ^ 0xbb, 32)), t_ra: None, t_rb: None }).collect()
     }, check);
+    ctx.listed("related_master_key_sequences", "complete exchanges under ke, N-ke, ke, ke+1, N-ke on one thread inside one case: anything the library remembers between calls (memoised pairing values keyed by a master public key) is carried over", || {
+        (0..2u64).map(|i| {
+            let x = |rel: u8, bump: u64, j: u64| Xc { ke: gen::hex32(&(BigUint::from(0x5eed_1700u64 + i * 100 + bump))), ke_rel: rel, ida_len: 4, idb_len: 6, id_seed: 0x1718 + i, same_id: false, klen: 16 + j as usize, ra: Hex(expand_bytes(i ^ 0x5e96 ^ j << 8, 32)), rb: Hex(expand_bytes(i ^ 0x5e97 ^ j << 8, 32)), t_ra: None, t_rb: None };
+            vec![x(0, 0, 0), x(6, 0, 1), x(0, 0, 2), x(0, 1, 3), x(6, 0, 4)]
+        }).collect::<Vec<_>>()
+    }, |steps: &Vec<Xc>| seq(steps, check));
+
+    ctx.cold("cold_start_exchange", "a complete SM9 key exchange as the first library operations of a fresh process (two different master keys)", || {
+        (0..2u64).map(|i| Xc { ke: gen::hex32(&(BigUint::from(0x0bad_c0de_1234_5677u64) + i)), ke_rel: 0, ida_len: 5, idb_len: 3, id_seed: 17 + i, same_id: false, klen: 16 + 16 * i as usize, ra: Hex(expand_bytes(i ^ 0xc17d, 32)), rb: Hex(expand_bytes(i ^ 0xc17e, 32)), t_ra: None, t_rb: None }).collect()
+    }, check);
+
+    let nrel = ctx.tier.pick(4u64, 24u64);
+    ctx.listed("master_key_related_to_h1", "master keys crafted from the identities: ke = H1(ID_B||02) / H1(ID_A||02) (Q becomes a doubling of Ppub-e), 2*H1, H1 - 1, N - H1 + 1: honest exchange, exact R_A, R_B, SK_B, SK_A", move || {
+        let mut v = Vec::new();
+        for i in 0..nrel {
+            for rel in 1..=5u8 {
+                v.push(Xc { ke: gen::hex32(&BigUint::one()), ke_rel: rel, ida_len: 1 + (i as usize % 9), idb_len: 1 + (i as usize * 3 % 11), id_seed: 0x1717 + i, same_id: false, klen: 16 + (i as usize % 20), ra: Hex(expand_bytes(i ^ 0xa1, 32)), rb: Hex(expand_bytes(i ^ 0xb1, 32)), t_ra: None, t_rb: None });
+            }
+        }
+        v
+    }, check);
+
     ctx.listed("edge_point_ephemerals", "R_A (resp. R_B) replaced in transit by a boundary point of G1 (x next to 0, N, p, 2^256-p, powers of two, Montgomery limb patterns, y with a leading zero byte): the receiving side must accept it and derive exactly the key GM/T 0044.3 prescribes", || {
         let mut v = Vec::new();
         for i in 0..g1_edge_points().len() {
             for which in 0..2u8 {
-                v.push(Xc { ke: gen::hex32(&BigUint::from(0x0bad_c0de_1234_5677u64)), ida_len: 5, idb_len: 3, id_seed: 17, same_id: false, klen: 16 + i % 17, ra: Hex(expand_bytes(i as u64 ^ 0xe1, 32)), rb: Hex(expand_bytes(i as u64 ^ 0xe2, 32)),
+                v.push(Xc { ke: gen::hex32(&BigUint::from(0x0bad_c0de_1234_5677u64)), ke_rel: 0, ida_len: 5, idb_len: 3, id_seed: 17, same_id: false, klen: 16 + i % 17, ra: Hex(expand_bytes(i as u64 ^ 0xe1, 32)), rb: Hex(expand_bytes(i as u64 ^ 0xe2, 32)),
                     t_ra: if which == 0 { Some(RTamper::EdgePoint(i)) } else { None }, t_rb: if which == 1 { Some(RTamper::EdgePoint(i)) } else { None } });
             }
         }
